@@ -7,10 +7,11 @@ import syscheck
 
 if __name__ == "__main__":
     setup_repo_path()
+    import gentie
     sys.exit(run_check(
-        "C09", lean_modules=["Pamiq.Props.C09", "Pamiq.Props.C09Lang"],
-        required_theorems=["Pamiq.Proto.cb_only_in_its_phase", "Pamiq.Proto.no_self_overlap", "Pamiq.Proto.setup_phase_not_reentered", "Pamiq.Proto.no_work_while_local_paused", "Pamiq.Proto.resumed_hook_needs_pause", "Pamiq.Proto.paused_hook_needs_not_paused", "Pamiq.Proto.save_callback_excludes_owner_callbacks", "Pamiq.Proto.step_only_in_tick", "Pamiq.Proto.phase_protocol", "Pamiq.Proto.rel_step", "Pamiq.Proto.automaton_rejects", "Pamiq.Proto.paused_state_no_step"],
-        suites=syscheck.make_suites("C09", [('C09', 220, 6000), ('any', 160, 4000)],
+        "C09", lean_modules=["Pamiq.Props.C09", "Pamiq.Props.C09Lang", "Pamiq.Lemmas.ProtoBg"],
+        required_theorems=["Pamiq.Proto.bedge_sound", "Pamiq.Proto.cb_only_in_its_phase", "Pamiq.Proto.no_self_overlap", "Pamiq.Proto.setup_phase_not_reentered", "Pamiq.Proto.no_work_while_local_paused", "Pamiq.Proto.resumed_hook_needs_pause", "Pamiq.Proto.paused_hook_needs_not_paused", "Pamiq.Proto.save_callback_excludes_owner_callbacks", "Pamiq.Proto.step_only_in_tick", "Pamiq.Proto.phase_protocol", "Pamiq.Proto.rel_step", "Pamiq.Proto.automaton_rejects", "Pamiq.Proto.paused_state_no_step"],
+        suites=[gentie.suite_for("C09")] + syscheck.make_suites("C09", [('C09', 220, 6000), ('any', 160, 4000)],
             "random scenarios (0-2 trainers, child agent, 1-3 attempts, queue 1-3, web commands incl. "
             "pause/resume/save/status/invalid, save condition, faults at every callback kind, interrupts, "
             "timed mode) x seeded random schedules of the real launch(); each trace replayed through "
